@@ -21,6 +21,7 @@ import (
 	"sort"
 	"strings"
 	"sync"
+	"syscall"
 	"time"
 
 	"github.com/thomasjungblut/go-sstables/recordio"
@@ -403,6 +404,11 @@ func crashPropOf(flavour string) string {
 func crashOpenFailClass(a *crashAbs, open string) string {
 	if strings.Contains(open, "valuenil") || strings.Contains(open, "keynil") || strings.Contains(open, "emptykv") {
 		return "rejected-call-reached-the-log" // the replay hands the memstore a record it refuses
+	}
+	if strings.Contains(open, "record_header_for_zeros") || strings.Contains(open, "record header for zeros") {
+		// the reader found something behind the last record that is neither a record nor zero padding (block-aligned
+		// log writers pad their last write)
+		return "log-file-with-non-zero-bytes-behind-its-last-record"
 	}
 	cls := a.Class()
 	low := strings.ToLower(open)
@@ -1050,13 +1056,28 @@ func runCrash(res *Result, drv *Driver, seed uint64, n int, tier string, only in
 			directWal = 0
 		}
 	}
-	for idx := 0; idx < n+len(bigFlavours)+smallRecords+directWal; idx++ {
+	// the session behind those: the database with the asynchronous log on direct-I/O writers, log files larger than the
+	// 4 MiB write buffer (crashGenDirectAsyncSession; sixth random stream), skipped where the file system has no O_DIRECT
+	directAsync := 0
+	switch crashFlavour {
+	case "async", "all", "":
+		directAsync = 1
+		if ok, err := recordio.IsDirectIOAvailable(); err != nil || !ok {
+			res.Stat("direct-io-async-session:skipped-direct-io-not-available-on-this-file-system")
+			directAsync = 0
+		}
+	}
+	for idx := 0; idx < n+len(bigFlavours)+smallRecords+directWal+directAsync; idx++ {
 		if only >= 0 && idx != only {
 			continue
 		}
 		flavour := crashFlavourOf(idx, crashFlavour)
 		var s *crashSession
-		if idx >= n+len(bigFlavours)+smallRecords {
+		if idx >= n+len(bigFlavours)+smallRecords+directWal {
+			flavour = "async"
+			s = crashGenDirectAsyncSession(seed, idx, tier)
+			res.Stat("direct-io-async-session")
+		} else if idx >= n+len(bigFlavours)+smallRecords {
 			flavour = "wal"
 			s = crashGenDirectWalSession(seed, idx, tier)
 			res.Stat("direct-io-wal-session")
@@ -1108,7 +1129,7 @@ func runCrash(res *Result, drv *Driver, seed uint64, n int, tier string, only in
 			}
 			if o.Kind == "open" || o.Kind == "walopen" {
 				for _, f := range strings.Fields(o.Line)[1:] {
-					if strings.HasPrefix(f, "mem=") || strings.HasPrefix(f, "thr=") || strings.HasPrefix(f, "wbuf=") || strings.HasPrefix(f, "async=") {
+					if strings.HasPrefix(f, "mem=") || strings.HasPrefix(f, "thr=") || strings.HasPrefix(f, "wbuf=") || strings.HasPrefix(f, "async=") || strings.HasPrefix(f, "direct=") {
 						res.Stat("open:" + f)
 					}
 				}
@@ -1246,7 +1267,9 @@ func runCrash(res *Result, drv *Driver, seed uint64, n int, tier string, only in
 			}
 		}
 
-		if idx >= n+len(bigFlavours)+smallRecords {
+		if idx >= n+len(bigFlavours)+smallRecords+directWal {
+			crashDirectAsyncStats(res, run, sel)
+		} else if idx >= n+len(bigFlavours)+smallRecords {
 			// direct-I/O log: what the calls answered, and whether blocks reached the disk before the end
 			blocks := 0
 			for _, e := range run.Events {
@@ -1311,9 +1334,230 @@ func runCrash(res *Result, drv *Driver, seed uint64, n int, tier string, only in
 			}
 		}
 	}
+	// the big-log session of the flavour sync (crashGenBigLogSession; fifth random stream; images by stopping the child,
+	// see crashRunBigLogSession). --only crashBigLogIdx(n) replays it.
+	if (crashFlavour == "sync" || crashFlavour == "all" || crashFlavour == "") && (only < 0 || only == crashBigLogIdx(n)) {
+		if err := crashRunBigLogSession(res, seed, crashBigLogIdx(n), tier); err != nil {
+			return err
+		}
+	}
 	res.StatN("distinct-abstract-shapes", res.Nontrivial)
 	if len(abnormal) > 0 {
 		return fmt.Errorf("%d session children ended abnormally (the library killed the process during normal operation?): %s", len(abnormal), strings.Join(abnormal, " || "))
+	}
+	return nil
+}
+
+// ---------------------------------------------------------------------------------------------
+// the big-log session of flavour sync (crashGenBigLogSession): not traced.  The child runs the program on its own; at
+// every `pause` it stops itself (SIGSTOP: all threads, the flusher included), the parent reads the directory into
+// memory - exactly what a kill at that instant leaves behind - and sends SIGCONT.  Each of the few images is then
+// re-opened by the probe child and judged by the oracle of the flavour sync (evalSync: acknowledged effects exactly;
+// the compaction cycle after the recovery succeeds and changes no read).
+
+func crashRunBigLogSession(res *Result, seed uint64, idx int, tier string) error {
+	s := crashGenBigLogSession(seed, idx, tier)
+	res.Cases++
+	res.Stat("big-log-session")
+	res.Stat("flavour:sync")
+	res.Stat("profile:sync:" + s.Profile)
+	res.StatN("ops", len(s.Ops))
+	logged := 0
+	var pauses []int
+	for i, o := range s.Ops {
+		res.Stat("op:" + o.Kind)
+		if o.Kind == "pause" {
+			pauses = append(pauses, i)
+		}
+		if o.isPut() {
+			logged += o.Len
+		}
+	}
+	res.StatN("big-log-session:MiB-logged-in-one-memstore-generation", logged>>20)
+	res.Sample(clipN(s.Describe(), 580))
+
+	scratch, err := os.MkdirTemp("", "verif-crash-biglog-")
+	if err != nil {
+		return err
+	}
+	defer os.RemoveAll(scratch)
+	db := filepath.Join(scratch, "db")
+	if err := os.Mkdir(db, 0o755); err != nil {
+		return err
+	}
+	specPath := filepath.Join(scratch, "spec.txt")
+	if err := os.WriteFile(specPath, []byte(s.Spec()), 0o644); err != nil {
+		return err
+	}
+	self, err := os.Executable()
+	if err != nil {
+		return err
+	}
+	stderrFile, err := os.Create(filepath.Join(scratch, "stderr.txt"))
+	if err != nil {
+		return err
+	}
+	defer stderrFile.Close()
+	markR, markW, err := os.Pipe()
+	if err != nil {
+		return err
+	}
+	cmd := exec.Command(self, "crashchild", "--dir", db, "--spec", specPath, "--markfd", "3")
+	cmd.Dir = scratch
+	cmd.Stderr = stderrFile
+	cmd.ExtraFiles = []*os.File{markW}
+	if err := cmd.Start(); err != nil {
+		markR.Close()
+		markW.Close()
+		return err
+	}
+	markW.Close()
+	pid := cmd.Process.Pid
+	var markers bytes.Buffer
+	markDone := make(chan struct{})
+	go func() {
+		defer close(markDone)
+		buf := make([]byte, 4096)
+		for {
+			n, err := markR.Read(buf)
+			markers.Write(buf[:n])
+			if err != nil {
+				return
+			}
+		}
+	}()
+	watchdog := time.AfterFunc(8*time.Minute, func() { _ = syscall.Kill(pid, syscall.SIGKILL) })
+	defer watchdog.Stop()
+	t0 := time.Now()
+	var images []*crashFS
+	exit := -1
+	for {
+		var ws syscall.WaitStatus
+		_, err := syscall.Wait4(pid, &ws, syscall.WUNTRACED, nil)
+		if err == syscall.EINTR {
+			continue
+		}
+		if err != nil {
+			return fmt.Errorf("big-log session: wait: %w", err)
+		}
+		if ws.Stopped() {
+			fs, err := crashLoadFS(db)
+			if err != nil {
+				_ = syscall.Kill(pid, syscall.SIGKILL)
+				return fmt.Errorf("big-log session: reading the stopped child's directory: %w", err)
+			}
+			images = append(images, fs)
+			if err := syscall.Kill(pid, syscall.SIGCONT); err != nil {
+				return fmt.Errorf("big-log session: SIGCONT: %w", err)
+			}
+			continue
+		}
+		if ws.Exited() {
+			exit = ws.ExitStatus()
+		} else if ws.Signaled() {
+			exit = 128 + int(ws.Signal())
+		}
+		break
+	}
+	_ = cmd.Process.Release()
+	<-markDone
+	markR.Close()
+	res.StatN("ms:big-log-session:child", int(time.Since(t0).Milliseconds()))
+	stderrTxt, _ := os.ReadFile(filepath.Join(scratch, "stderr.txt"))
+	if exit != 0 {
+		return fmt.Errorf("big-log session %d: the session child ended abnormally (exit %d; the library killed the process during normal operation?): %s | %s",
+			idx, exit, clipN(string(stderrTxt), 300), clipN(s.Describe(), 600))
+	}
+	// the markers: B <n> / E <n> <result>
+	run := &crashRun{S: s, ExitCode: exit, Stderr: string(stderrTxt)}
+	for _, line := range strings.Split(markers.String(), "\n") {
+		f := strings.SplitN(strings.TrimSpace(line), " ", 3)
+		if len(f) < 2 || (f[0] != "B" && f[0] != "E") {
+			continue
+		}
+		var op int
+		if _, err := fmt.Sscanf(f[1], "%d", &op); err != nil || op < 0 || op >= len(s.Ops) {
+			return fmt.Errorf("big-log session: marker for unknown op %q", line)
+		}
+		e := &crashEvent{Idx: len(run.Events), Kind: f[0], Op: op}
+		if f[0] == "B" {
+			s.Ops[op].BIdx = e.Idx
+		} else {
+			if len(f) == 3 {
+				e.Marker = f[2]
+			}
+			s.Ops[op].EIdx, s.Ops[op].Result = e.Idx, e.Marker
+		}
+		run.Events = append(run.Events, e)
+	}
+	for _, o := range s.Ops {
+		if o.Result != "" {
+			r := o.Result
+			if k := strings.IndexByte(r, ' '); k > 0 {
+				r = r[:k]
+			}
+			if strings.HasPrefix(r, "err:other") || strings.HasPrefix(r, "err:panic") {
+				r = r[:9]
+			}
+			res.Stat("result:" + o.Kind + ":" + r)
+		}
+	}
+	if len(images) != len(pauses) {
+		return fmt.Errorf("big-log session %d: %d images for %d pause ops", idx, len(images), len(pauses))
+	}
+	names := []string{"after-the-big-phase", "after-the-rotation", "after-the-flush", "at-the-end"}
+	for k, fs := range images {
+		p := pauses[k]
+		if s.Ops[p].BIdx < 0 || s.Ops[p].EIdx < 0 {
+			return fmt.Errorf("big-log session %d: pause op %d without markers", idx, p)
+		}
+		im := &crashImage{EvIdx: s.Ops[p].BIdx, FS: fs, Hash: fs.hash(), Acked: p, Inflight: -1, LastWalClose: -1, Abs: crashAbstract(fs, false)}
+		run.Images = append(run.Images, im)
+		name := fmt.Sprintf("image-%d", k)
+		if k < len(names) {
+			name = names[k]
+		}
+		largest, nwal := 0, 0
+		for _, path := range fs.paths() {
+			if nd := fs.nodes[path]; !nd.dir && crashIsWalPath(path, false) {
+				nwal++
+				if len(nd.data) > largest {
+					largest = len(nd.data)
+				}
+			}
+		}
+		res.Stat(fmt.Sprintf("big-log-session:image:%s:class=%s:log-files=%d", name, im.Abs.Class(), nwal))
+		if largest > 128*1024*1024 {
+			res.Stat("big-log-session:image-with-log-file>128MiB")
+		}
+	}
+	res.StatN("image-entries", len(run.Images))
+	res.StatN("image-entries-checked", len(run.Images))
+	ev := &crashEval{res: res, idx: idx, run: run, refs: crashBuildRefs(s), prop: "C02", report: true, badHash: map[string]bool{}}
+	t1 := time.Now()
+	probes := make([]*crashProbe, len(run.Images))
+	crashParallel(len(run.Images), func(i int) { probes[i] = crashProbeFS(run.Images[i].FS, s.Keys, false, false) })
+	res.StatN("ms:big-log-session:probes", int(time.Since(t1).Milliseconds()))
+	res.StatN("images-probed", len(probes))
+	shapes := map[string]bool{}
+	for i, im := range run.Images {
+		probe := probes[i]
+		if probe.Fatal != nil {
+			return fmt.Errorf("big-log session %d: probe could not run: %w", idx, probe.Fatal)
+		}
+		if shape := im.Abs.Shape(); !shapes[shape] {
+			shapes[shape] = true
+			res.NoteNontrivial("sync:" + shape)
+		}
+		res.Stat("image-class:" + im.Abs.Class())
+		if probe.Open == "ok" {
+			res.Stat("reopen:ok")
+		} else {
+			res.Stat("reopen:fails")
+		}
+		ev.evalSync(im, probe)
+		ev.evalCompaction(im, im.Abs, probe, "C02", "", "", ev.caseStr(im, probe, ""))
+		im.FS = nil // 130+ MiB each
 	}
 	return nil
 }
@@ -1792,4 +2036,67 @@ func crashCmpFsRecover(res *Result, drv *Driver, idx int, s *crashSession, im *c
 	res.Stat("model:fs.recover-compared")
 	res.Cmp(idx, "fs.recover (abstract disk of a real image vs the real Open)", model, impl, cs+" | abstract disk: "+clipN(probe.AbsLine, 1500))
 	return nil
+}
+
+// crashDirectAsyncStats: what the direct-I/O session of the flavour async (crashGenDirectAsyncSession) really produced:
+// the writes each log file received (whole 4 MiB buffers), where the data of the last write ended, and the images that
+// hold a ROTATED log file of more than one buffer (the images between a rotation and the end of that table's flush).
+func crashDirectAsyncStats(res *Result, run *crashRun, sel []*crashImage) {
+	const buf = 4 * 1024 * 1024
+	writes := map[string]int{}
+	last := map[string][]byte{}
+	for _, e := range run.Events {
+		if e.Kind == "write" && crashIsWalPath(e.Path, false) && len(e.Data) > 0 {
+			writes[e.Path]++
+			last[e.Path] = e.Data
+			if len(e.Data) == buf {
+				res.Stat("direct-io-async-session:log-write-of-a-whole-4MiB-buffer")
+			} else {
+				res.Stat("direct-io-async-session:log-write-of-another-size")
+			}
+		}
+	}
+	for p, nw := range writes {
+		if nw < 2 {
+			res.Stat("direct-io-async-session:log-file-written-once")
+			continue
+		}
+		res.Stat("direct-io-async-session:log-file-written-more-than-once (buffer reused)")
+		d := last[p]
+		end := len(d)
+		for end > 0 && d[end-1] == 0 {
+			end--
+		}
+		switch {
+		case end <= 4096:
+			res.Stat("direct-io-async-session:last-write-data-ends-in-first-block-behind-the-refill")
+		case end > len(d)-4096:
+			res.Stat("direct-io-async-session:last-write-data-ends-in-last-block")
+		default:
+			res.Stat("direct-io-async-session:last-write-data-ends-in-a-middle-block")
+		}
+	}
+	seen := map[string]bool{}
+	n := 0
+	for _, im := range sel {
+		if seen[im.Hash] {
+			continue
+		}
+		seen[im.Hash] = true
+		var wals []string
+		for _, p := range im.FS.paths() {
+			if nd := im.FS.nodes[p]; !nd.dir && crashIsWalPath(p, false) {
+				wals = append(wals, p)
+			}
+		}
+		sort.Strings(wals)
+		if len(wals) >= 2 && len(im.FS.nodes[wals[0]].data) > buf {
+			n++
+		}
+	}
+	res.StatN("direct-io-async-session:images-with-rotated-log-file>4MiB (rotation done, table flush not finished)", n)
+	if n == 0 {
+		res.Stat("direct-io-async-session:without-rotated-big-log-image")
+		fmt.Fprintf(os.Stderr, "crash: session %d (direct-I/O async) produced no image with a rotated log file larger than the write buffer\n", run.S.Idx)
+	}
 }
